@@ -10,7 +10,8 @@ Spaces (all exhaustive within their bound; every case is a program AST + how it 
        depth 1-2 x register sized by literal / let x 0-2 usepulses;
  prog  the shared tree-exhaustive pool and <= k-deviation neighbourhoods (macros with every
        parameter use, nested seq/par/loop/subcircuit);
- each built by parsing text AND through the S-expression builder.
+ each built by parsing text AND through the S-expression builder; the literal programs also through the
+ builder with every float given as a numpy.float64 (a float subclass whose repr is not a Jaqal number).
 Oracle: t = generate(c); c2 = parse(t) does not raise; c2 == c and c == c2; the symbolic form
        and denotation read from c2's IR equal those of c and of the reference model;
        generate(c2) == t byte for byte.
@@ -161,6 +162,9 @@ class C01(ProgramCheck):
         for p in gen:
             yield ("text", p)
             yield ("build", p)
+            if shard[0] == "lit" and any(isinstance(x, float) for x in _numbers(p)):
+                # the builder API fed with numpy.float64 scalars (a float subclass: angles computed with numpy)
+                yield ("build-np", p)
 
     def show(self, case):
         return {"route": case[0], "text": render.text(case[1])}
@@ -177,6 +181,8 @@ class C01(ProgramCheck):
         try:
             if route == "text":
                 c = impl.parse(text)
+            elif route == "build-np":
+                c = impl.build(_numpy_floats(render.sexpr(p)))
             else:
                 c = impl.build(render.sexpr(p))
         except impl.JaqalError:
@@ -230,6 +236,16 @@ class C01(ProgramCheck):
                 ms = model.sym()
                 if s2 != ms:
                     ctx.fail("symbolic-model", "model %r\nre-parsed %r" % (ms, s2))
+
+
+def _numpy_floats(x):
+    import numpy
+
+    if isinstance(x, (list, tuple)):
+        return type(x)(_numpy_floats(v) for v in x)
+    if isinstance(x, float):
+        return numpy.float64(x)
+    return x
 
 
 def _numbers(p):
